@@ -110,9 +110,9 @@ def build(stream, p):
                 dsw.decode(s0, len(p["prev"]), arr, v0, is_faster=fast, vt_check=c0, shuffles=tab)
             except ValueError:
                 pass
-        e = dsw.encode(np.array(bits, dtype=int), a, v0, is_faster=fast, vt_length=vt, shuffles=tab)
+        e = gen.api("encode", binary_message=np.array(bits, dtype=int), accessor=a, start_index=v0, is_faster=fast, vt_length=vt, shuffles=tab)
         s, chk = (e if vt > 0 else (e, None))
-        d = dsw.decode(s, L, arr, v0, is_faster=fast, vt_check=chk, shuffles=tab)
+        d = gen.api("decode", dna_sequence=s, bit_length=L, accessor=arr, start_index=v0, is_faster=fast, vt_check=chk, shuffles=tab)
         return s, chk, [int(x) for x in d]
     call = enc_call(50, bits, gen.enc_acc(rows), v0, int(fast), vt, gen.enc_table(table), fuel)
     impl = lambda: guard(run, lambda r: [s2c(r[0]), gen.enc_opt_str(r[1]), r[2]])
